@@ -129,10 +129,87 @@ def instances(tier, seed):
         s = copy.deepcopy(s)
         s.objective = [integral(Z(0) * X(0) + t), at_tf(X(0)) * at_t0(X(0))] + ([integral(Z(0) * Z(0)), integral(Z(1) * Z(1))] if s.nz > 1 else [])
         add(fam.with_horizon(s, Hsym[di]), Cfg('DC', N=2, M=2, degree=3, scheme='radau', grid=fam.G_GEO_LOC))
+    # a stage WITHOUT states: ocp.integral is still the quadrature of the stage's own integration rule (not a left sum over the control grid)
+    for method, kw in (('MS', dict(intg='rk', M=2)), ('MS', dict(intg='expl_euler', M=3)), ('DC', dict(degree=2, scheme='radau', M=2)), ('SS', dict(intg='rk', M=1))):
+        add(None, None, kind='stateless', method=method, mkw=kw)
     return items
 
 
+def run_stateless(item):
+    """imperative instance (no states: the DSL always has one): f == sum over integrator steps of the rule's quadrature of e(t, u_k, p), proven by z3
+    for all control values, parameter values and the free end time"""
+    import time
+    import z3
+    import casadi as ca
+    from ..extract import Ocp, MultipleShooting, SingleShooting, DirectCollocation, FreeTime, quiet
+    from ..sx2smt import SXProgram, ConstPool, Z3Domain, emb
+    from ..ref import collocation as rco
+    method, kw = item['method'], dict(item['mkw'])
+    N, M = 2, kw.pop('M')
+    stats = {'unsat': 0, 'sat': 0, 'unknown': 0, 'queries': 0, 'solver_s': 0.0}
+    proved, viol, incon = [], [], []
+    with quiet():
+        ocp = Ocp(t0=0.5, T=FreeTime(2.0))
+        u = ocp.control()
+        p = ocp.parameter()
+        ocp.set_value(p, 1.5)
+        e = lambda t_, u_: (u_ - t_ * t_) * (u_ - t_ * t_) + p * t_ * u_
+        ocp.add_objective(ocp.integral(e(ocp.t, u)) + ocp.T)
+        ocp.subject_to(-3 <= (u <= 3))
+        ocp.method({'MS': MultipleShooting, 'SS': SingleShooting, 'DC': DirectCollocation}[method](N=N, M=M, **kw))
+        ocp.solver('ipopt')
+        us = ocp.sample(u, grid='control-')[1]
+        ti = ocp.sample(ocp.t, grid='integrator')[1]
+        Tv = ocp.value(ocp.T)
+        opti = ocp._method.opti
+        ref = Tv
+        pv = ocp.value(p)
+        for k in range(N):
+            for i in range(M):
+                a, b_ = ti[k * M + i], ti[k * M + i + 1]
+                h = b_ - a
+                q = lambda t_: (us[k] - t_ * t_) * (us[k] - t_ * t_) + pv * t_ * us[k]
+                if method == 'DC':
+                    tb = rco.Tables(kw['degree'], kw['scheme'])
+                    ref = ref + h * sum(float(tb.b[j]) * q(a + float(tb.tau[j]) * h) for j in range(kw['degree']))
+                elif kw['intg'] == 'rk':
+                    ref = ref + h / 6 * (q(a) + 4 * q(a + h / 2) + q(b_))
+                else:
+                    ref = ref + h * q(a)
+        syms = list(opti.advanced.symvar())
+        prog = SXProgram(syms, [opti.f - ref])
+        prog.selfcheck(random.Random(4))
+    zdom = Z3Domain(ConstPool())
+    zin = [[z3.Real('%s_%d' % (s_.name(), j)) for j in range(s_.numel())] for s_ in syms]
+    d = prog.run(zdom, zin)[0][0]
+    sol = z3.Solver()
+    sol.set('timeout', 30000)
+    t_ = time.time()
+    sol.add(z3.simplify(emb(d)) != 0)
+    r = str(sol.check())
+    stats[r] += 1
+    stats['queries'] += 1
+    stats['solver_s'] += time.time() - t_
+    lab = 'f == T + sum of per-step quadratures (%s)' % method
+    if r == 'unsat':
+        proved.append(lab)
+    elif r == 'sat':
+        viol.append({'property': PROP, 'key': 'objective|stateless|%s' % method, 'label': lab, 'cfg': '%s N=%d M=%d %s' % (method, N, M, kw), 'spec': 'no states, one control, integral((u-t^2)^2 + p t u) + T',
+                     'detail': 'on a stage without states the NLP objective is not the quadrature of the integrand by the stage\'s own integration rule over the integrator steps'})
+    else:
+        incon.append({'label': lab, 'why': 'solver ' + r})
+    res = {'stats': stats, 'obligations': 1, 'discharged': len(proved), 'nontrivial': proved, 'violations': viol, 'inconclusive': incon or None, 'twins_ok': 0, 'twins_bad': 0,
+           'shape': 'stateless|%s|%s' % (method, kw), 'sample': {'kind': 'stateless', 'method': method, 'N': N, 'M': M}}
+    if viol:
+        res['status'] = 'violation'
+    elif incon:
+        res['status'] = 'inconclusive'
+    return res
+
+
 def run(item):
+    if item.get('kind') == 'stateless':
+        return run_stateless(item)
     spec, cfg = item['spec'], item['cfg']
     inst = Inst(spec, cfg, seed=item.get('seed', 0), poly=item.get('poly', False),
                 extra_outputs=lambda b: [b.ocp.value(b.ocp.objective)])
